@@ -24,16 +24,29 @@ Actions(m) == 1..m.na
 Events(m)  == 1..m.ne
 Den(m)     == m.PD * m.GD
 
-RECURSIVE SumTo(_, _)
-SumTo(f, n) == IF n = 0 THEN 0 ELSE f[n] + SumTo(f, n - 1)
+(* Sum / maximum / minimum of f[1..n].  The recursion splits the range in halves: TLC evaluates a recursion of     *)
+(* depth d in time quadratic in d, so the obvious f[n] + SumTo(f, n - 1) costs minutes for tens of thousands of  *)
+(* entries (states of the corridor MDPs, actions beyond 16-bit limits) where this one costs seconds.             *)
+RECURSIVE SumR(_, _, _)
+SumR(f, lo, hi) == IF lo = hi THEN f[lo]
+                   ELSE LET mid == (lo + hi) \div 2 IN SumR(f, lo, mid) + SumR(f, mid + 1, hi)
+SumTo(f, n) == IF n = 0 THEN 0 ELSE SumR(f, 1, n)
 
-RECURSIVE MaxTo(_, _)
-MaxTo(f, n) == IF n = 1 THEN f[1]
-               ELSE LET r == MaxTo(f, n - 1) IN IF f[n] > r THEN f[n] ELSE r
+RECURSIVE MaxR(_, _, _)
+MaxR(f, lo, hi) == IF lo = hi THEN f[lo]
+                   ELSE LET mid == (lo + hi) \div 2
+                            a == MaxR(f, lo, mid)
+                            b == MaxR(f, mid + 1, hi)
+                        IN IF a > b THEN a ELSE b
+MaxTo(f, n) == MaxR(f, 1, n)
 
-RECURSIVE MinTo(_, _)
-MinTo(f, n) == IF n = 1 THEN f[1]
-               ELSE LET r == MinTo(f, n - 1) IN IF f[n] < r THEN f[n] ELSE r
+RECURSIVE MinR(_, _, _)
+MinR(f, lo, hi) == IF lo = hi THEN f[lo]
+                   ELSE LET mid == (lo + hi) \div 2
+                            a == MinR(f, lo, mid)
+                            b == MinR(f, mid + 1, hi)
+                        IN IF a < b THEN a ELSE b
+MinTo(f, n) == MinR(f, 1, n)
 
 Abs(x) == IF x < 0 THEN -x ELSE x
 
